@@ -219,6 +219,16 @@ CLAIMED["C32"] = (
     "ARGUMENTS of effects, not their outcome; callees of buildTarget without contracts are opaque (opt inline=off).",
     "contract-based deductive verification (ghost call history, call-site and return-site obligations, loop invariants + SMT)", "6/C32")
 
+CLAIMED["C34"] = (
+    "Proof, per entry of the tree walk in RecursiveCopyOrLinkFile (the walk callback is a function literal under contract): a directory is "
+    "created at the same relative path under the destination, a symlink is recreated there with the target read from the source link, any "
+    "other file is copied or linked there with the caller's mode/link/fallback arguments, and a nil result means exactly the matching action "
+    "was taken (ghost call flags); CopyOrLinkFile and copySymlink pass the source only as the thing read and the destination as the thing "
+    "written, and never chmod/chown/remove/rename/truncate anything (a hard link shares the source's inode). Kernel-only: that the walk visits "
+    "every entry is the assumed iteration contract of fs.WalkMode; byte equality of contents is io.Copy inside CopyFile/WriteFile (opaque).",
+    COMMON_NOTE + "os.* calls are opaque; the getters of the fs.Mode interface are assumed pure; the file system is not modelled.",
+    "contract-based deductive verification (function literal under contract, call-site obligations, ghost call flags + SMT)", "6/C34")
+
 NOT_APPLICABLE = {
     "C05": "liveness / whole-run exit status under all schedules: no per-call contract expresses it (safety fragment is under C04)",
     "C30": "OS process groups, signals and wall-clock bounds; goroutines and select are outside the sequential contract model",
